@@ -931,13 +931,13 @@ struct reb_particle reb_particle_from_orbit_err(double G, struct reb_particle pr
         return reb_particle_nan();
     }
     if(e > 1.){
-        if(a > 0.){
+        if(a >= 0.){ // a == 0 is degenerate: reject it with the hyperbolic orbits that must have a < 0
             *err = 3; 	// Bound orbit (a > 0) must have e < 1. 
             return reb_particle_nan();
         }
     }
     else{
-        if(a < 0.){
+        if(a <= 0.){ // a == 0 is degenerate: reject it with the elliptic orbits that must have a > 0
             *err =4; 	// Unbound orbit (a < 0) must have e > 1.
             return reb_particle_nan();
         }
